@@ -145,10 +145,13 @@ def sp_ns_scale(pid, cfg, tier, seed, exe, chk, violations, broken, notes):
     extra_tie(pid, cfg, exe, chk, cases, seed, violations, broken, res)
     return res
 
-def extra_tie(pid, cfg, exe, chk, cases, seed, violations, broken, res):
+def extra_tie(pid, cfg, exe, chk, cases, seed, violations, broken, res, per_chunk=50, label='', impl_only=False):
     """run additional CASE lines through the normal implementation-vs-model comparison"""
     import props as P
-    impl, model, crashes, drvfail = chk.run_cases(exe, cases, cfg['sections'], seed)
+    n0 = len(violations)
+    impl, model, crashes, drvfail = chk.run_cases(exe, cases, cfg['sections'], seed, per_chunk=per_chunk, want_model=not impl_only)
+    for d in drvfail:
+        broken.append({'obligation': 'model driver', 'detail': d})
     for cid, why, lines in crashes:
         if cfg.get('crash_is_violation'):
             violations.append({'kind': 'crash', 'what': f'process {why} while handling this input', 'case': chk.case_text(lines), 'concrete': True})
@@ -193,18 +196,50 @@ def extra_tie(pid, cfg, exe, chk, cases, seed, violations, broken, res):
             if a != b:
                 broken.append({'obligation': 'tie (internal sections)', 'examples': [{'section': tags, 'case': info, 'impl': a[:2], 'model': b[:2]}]})
                 break
+    if label:
+        for v in violations[n0:]:
+            v['what'] = label + ': ' + v.get('what', '')
     res['evaluations'] = res.get('evaluations', 0) + n
     res['extra_distinct'] = res.get('extra_distinct', 0) + len({tuple(l for l in il if l[:2] in ('N ', 'A ', 'RE')) for il in impl.values()})
 
-def sp_gen_tie(gens_quick, gens_thorough):
+def sp_gen_tie(gens_quick, gens_thorough, per_chunk=50):
     def f(pid, cfg, tier, seed, exe, chk, violations, broken, notes):
         res = {'evaluations': 0, 'extra_distinct': 0}
         cases = []
         for spec in (gens_quick if tier == 'quick' else gens_thorough):
             cases += chk.gen_cases(exe, spec, seed)
-        extra_tie(pid, cfg, exe, chk, cases, seed, violations, broken, res)
+        extra_tie(pid, cfg, exe, chk, cases, seed, violations, broken, res, per_chunk=per_chunk)
         return res
     return f
+
+def sp_feature_tie(feature_sets, gens_quick, gens_thorough, impl_only=False):
+    """The property quantifies over the crate's feature sets: the same comparison with the model (and
+    the same implementation-only checks) on harnesses built with other feature sets of roxmltree."""
+    def f(pid, cfg, tier, seed, exe, chk, violations, broken, notes):
+        res = {'evaluations': 0, 'extra_distinct': 0}
+        cases = []
+        for spec in (gens_quick if tier == 'quick' else gens_thorough):
+            cases += chk.gen_cases(exe, spec, seed)
+        for fs in feature_sets:
+            name = 'none' if not fs else ','.join(x.replace('rox-', '') for x in fs)
+            e, err = chk.build_harness(fs)
+            if e is None:
+                broken.append({'obligation': f'harness build with roxmltree features {name}', 'detail': err[-1500:]})
+                continue
+            extra_tie(pid, cfg, e, chk, cases, seed, violations, broken, res, label=f'roxmltree built with features [{name}]', impl_only=impl_only)
+        notes.append(f'feature sets {[("none" if not fs else ",".join(fs)) for fs in feature_sets]}: {len(cases)} inputs each through the comparison with the model')
+        return res
+    return f
+
+def sp_tp_huge(pid, cfg, tier, seed, exe, chk, violations, broken, notes):
+    """text_pos_at with offsets far past the end (2^40 .. usize::MAX) answers at once with the end position"""
+    st, lines, err = scale_run(exe, 'tp-huge', 1, 30)
+    bad = st != 'ok' or any(' parse=panic' in l or (l.startswith('SCALEAPI') and (' panic' in l or 'WRONG' in l)) for l in lines)
+    if bad:
+        violations.append({'kind': 'crash' if st != 'ok' else 'impl-oracle', 'concrete': True,
+                           'what': f'text_pos_at with offsets 2^40 .. usize::MAX on a 17-byte document: process {st} {" ".join(lines)[:200]} {err[-200:]}',
+                           'case': {'generator': 'roxh scale tp-huge 1'}})
+    return {'evaluations': 1, 'extra_distinct': 1}
 
 def sp_verdict(cmd, gens_quick, gens_thorough, kind, also=None, limits=False):
     def f(pid, cfg, tier, seed, exe, chk, violations, broken, notes):
@@ -325,7 +360,7 @@ def sp_features(pid, cfg, tier, seed, exe, chk, violations, broken, notes):
             txt = bytes.fromhex(info.get('text_hex', ''))
             a, b = P.Dump(il, txt), P.Dump(jl, txt)
             ra, rb = P.res_line(il), P.res_line(jl)
-            if ra != rb or (a.ok and a.content() != b.content()):
+            if ra != rb or (a.ok and (a.content() != b.content() or a.structure() != b.structure())):
                 violations.append({'kind': 'impl-oracle', 'concrete': True,
                                    'what': f'feature set {name} differs from default: {ra} vs {rb}', 'case': info})
             if a.ok and 'positions' not in name and name != 'default':
@@ -420,10 +455,10 @@ def sp_dbg_build(then):
             broken.append({'obligation': 'harness build with debug-assertions and overflow-checks', 'detail': log[-800:]})
             return res
         plan = [['model', 1500, 25], ['entities', 6], ['entity-boundary', 1], ['fixtures', 4000], ['mut', 1000, 400], ['enum', 2, 0], ['enum', 2, 2],
-                ['exotic', 10], ['dtdjunk', 90]]
+                ['exotic', 10], ['dtdjunk', 90], ['lexedge', 1], ['manyattrs', 1], ['manyents', 1]]
         if tier == 'thorough':
             plan = [['model', 30000, 25], ['entities', 32], ['entity-boundary', 1], ['fixtures', 20000], ['mut', 30000, 1000], ['exotic', 100],
-                    ['dtdjunk', 900]] + [['enum', 3, k] for k in range(4)]
+                    ['dtdjunk', 900], ['lexedge', 1], ['manyattrs', 1], ['manyents', 1]] + [['enum', 3, k] for k in range(4)]
         cases = chk.corpus_cases(pid)
         for g in plan:
             cases += chk.gen_cases(exe, g, seed)
@@ -453,10 +488,11 @@ def sp_dbg_build(then):
 
 SPECIALS = {
     'scale_parse': sp_dbg_build(sp_scale(False)),
-    'scale_api': chain(sp_scale(True), sp_verdict('crossattr', [['model', 300, 0], ['ns', 1]], [['model', 2000, 0], ['ns', 5]], 'impl-oracle')),
+    'scale_api': chain(sp_scale(True), sp_verdict('crossattr', [['model', 300, 0], ['ns', 1]], [['model', 2000, 0], ['ns', 5]], 'impl-oracle'),
+                       sp_feature_tie([['rox-std'], []], [['model', 400, 10], ['lexedge', 1]], [['model', 4000, 10], ['lexedge', 1], ['exotic', 30]], impl_only=True)),
     'ns_scale': sp_ns_scale,
     'hoist': sp_verdict('hoist', [['model', 3000, 0]], [['model', 40000, 0]], 'impl-oracle',
-                        also=sp_gen_tie([['entities', 8]], [['entities', 32]])),
+                        also=sp_gen_tie([['entities', 8], ['manyents', 1]], [['entities', 32], ['manyents', 1]])),
     'illform': chain(sp_verdict('illform', [['model', 400, 0]], [['model', 5000, 0], ['fixtures', 3000]], 'impl-oracle',
                                 also=sp_gen_tie([['entity-boundary', 1], ['exotic', 10]], [['entity-boundary', 1], ['exotic', 100]])),
                      sp_ns_edge([(65536, 'over-dup', 'anyerr')])),
@@ -465,20 +501,30 @@ SPECIALS = {
     'shift': sp_verdict('shift', [M], [MT, ['mut', 5000, 400]], 'impl-oracle',
                         also=sp_verdict('shapes', [M, ['fixtures', 4000], ['longattr', 1]], [MT, ['fixtures', 20000], ['longattr', 1]], 'impl-oracle')),
     'errshift': sp_verdict('shift', [['model', 1500, 40], ['mut', 1500, 300]], [['model', 20000, 40], ['mut', 20000, 400]], 'impl-oracle',
-                           also=sp_gen_tie([['exotic', 10]], [['exotic', 100]])),
+                           also=chain(sp_gen_tie([['exotic', 10]], [['exotic', 100]]), sp_tp_huge,
+                                      sp_feature_tie([['rox-std'], []], [['model', 500, 30], ['lexedge', 1], ['exotic', 10]],
+                                                     [['model', 5000, 30], ['lexedge', 1], ['exotic', 60], ['mut', 3000, 300]]))),
     'limits': sp_verdict('limits', [M, ['mut', 500, 300], ['entities', 6], ['limitedge', 1]], [MT, ['mut', 10000, 400], ['entities', 16], ['limitedge', 1]], 'impl-oracle'),
     'dtdpairs': chain(sp_verdict('dtdpairs', [['limitedge', 1]], [['limitedge', 1]], 'impl-oracle'),
                       sp_verdict('dtdpairs', [['model', 2000, 20], ['mut', 1000, 400], ['enum', 2, 0], ['lexedge', 1]],
                                  [['model', 30000, 20], ['mut', 20000, 1000], ['enum', 3, 0], ['fixtures', 20000], ['lexedge', 1]], 'impl-oracle', limits=True),
+                      sp_verdict('dtdpairs', [['blocktext', 1], ['longattr', 1]], [['blocktext', 2], ['longattr', 1]], 'impl-oracle'),
                       sp_verdict('lxmlsum', [['model', 1500, 0], ['lexedge', 1]], [['model', 20000, 0], ['lexedge', 1], ['fixtures', 20000]], 'impl-oracle')),
     'ord': sp_ord,
     'features': sp_features,
     'threads': sp_threads,
-    'pieces_text': sp_gen_tie([['pieces2-text', 2], ['entities', 8], ['exotic', 10]], [['pieces2-text', 3], ['entities', 32], ['exotic', 100]]),
-    'pieces_attr': sp_gen_tie([['pieces2-attr', 2], ['entities', 8], ['exotic', 10]], [['pieces2-attr', 3], ['entities', 32], ['exotic', 100]]),
+    'pieces_text': chain(sp_gen_tie([['pieces2-text', 2], ['entities', 8], ['exotic', 10]], [['pieces2-text', 3], ['entities', 32], ['exotic', 100]]),
+                         sp_gen_tie([['blocktext', 1]], [['blocktext', 2]], per_chunk=1)),
+    'pieces_attr': chain(sp_gen_tie([['pieces2-attr', 2], ['entities', 8], ['exotic', 10]], [['pieces2-attr', 3], ['entities', 32], ['exotic', 100]]),
+                         sp_gen_tie([['blocktext', 1]], [['blocktext', 2]], per_chunk=1)),
     'markup': sp_gen_tie([['exotic', 10], ['entity-boundary', 1]], [['exotic', 100], ['entity-boundary', 1]]),
     'storage': chain(sp_gen_tie([['pieces2-text', 2], ['pieces2-attr', 2], ['exotic', 10]], [['pieces2-text', 3], ['pieces2-attr', 3], ['exotic', 100]]),
-                     sp_verdict('apiborrow', [['model', 1500, 10], ['ns', 1], ['lexedge', 1], ['entities', 4]], [['model', 20000, 10], ['ns', 10], ['lexedge', 1], ['entities', 16], ['fixtures', 20000]], 'impl-oracle')),
-    'lookups': sp_gen_tie([['ns', 3]], [['ns', 40]]),
-    'tree': sp_gen_tie([['entity-boundary', 1], ['entities', 4]], [['entity-boundary', 1], ['entities', 32]]),
+                     sp_verdict('apiborrow', [['model', 1500, 10], ['ns', 1], ['lexedge', 1], ['entities', 4], ['blocktext', 1], ['longattr', 1]],
+                                [['model', 20000, 10], ['ns', 10], ['lexedge', 1], ['entities', 16], ['fixtures', 20000], ['blocktext', 2], ['longattr', 1]], 'impl-oracle'),
+                     sp_gen_tie([['blocktext', 1], ['longattr', 1]], [['blocktext', 2], ['longattr', 1]], per_chunk=1)),
+    'lookups': chain(sp_gen_tie([['ns', 3]], [['ns', 40]]),
+                     sp_verdict('crossattr', [['ns', 1], ['model', 300, 0], ['entity-boundary', 1]], [['ns', 5], ['model', 2000, 0], ['entity-boundary', 1]], 'impl-oracle')),
+    'tree': chain(sp_gen_tie([['entity-boundary', 1], ['entities', 4]], [['entity-boundary', 1], ['entities', 32]]),
+                  sp_feature_tie([['rox-std'], []], [['model', 600, 10], ['entity-boundary', 1], ['entities', 4]],
+                                 [['model', 6000, 10], ['entity-boundary', 1], ['entities', 16], ['fixtures', 4000]])),
 }
